@@ -30,7 +30,7 @@ from collections.abc import Iterator
 import numpy as np
 
 from ..docstrings import document_load_many, document_load_one
-from ..utils import LineIterator, nanometer, picosecond
+from ..utils import LineIterator, LoadError, nanometer, picosecond
 
 __all__ = ()
 
@@ -66,11 +66,22 @@ def load_many(lit: LineIterator) -> Iterator[dict]:
     """Do not edit this docstring. It will be overwritten."""
     # gro files can be used as trajectory by simply concatenating files,
     # making it trivial to load many frames.
-    try:
-        while True:
-            yield load_one(lit)
-    except StopIteration:
-        return
+    while True:
+        # When only empty lines are left, the end of the file is reached.
+        lines = []
+        try:
+            while not lines or lines[-1].strip() == "":
+                lines.append(next(lit))
+        except StopIteration:
+            return
+        # Put the lines back: a frame may start with an empty (title) line.
+        while lines:
+            lit.back(lines.pop())
+        try:
+            data = load_one(lit)
+        except StopIteration as exc:
+            raise LoadError("File ended in the middle of a frame.", lit) from exc
+        yield data
 
 
 def _helper_read_frame(lit: LineIterator) -> tuple:
